@@ -14,7 +14,8 @@
        indirect references; generation numbers are 0 throughout);
      - the annotation dictionaries that are NOT part of the forest, with their own /FT
        (cacheSig is also called for every page annotation: validate/annotation.go detectSignature);
-     - catalog entries DSS, Legal, Perm (sic), Perms, Extensions, AcroForm; AcroForm /SigFlags.
+     - catalog entries DSS, Legal, Perms, Extensions, AcroForm (and a stray /Perm key, which the
+       code deleted instead of /Perms before fix 31c53709); AcroForm /SigFlags.
    Not modelled (excluded by validation before RemoveAllSignatures runs, see the NOTE in the Go
    loop): Fields entries that are not indirect references, undereferenceable or empty dicts;
    /P pointing to a non-dictionary (the only error return of removeSigAnnot). *)
@@ -46,7 +47,7 @@ Record doc := {
   d_form   : option form;      (* xRefTable.Form (nil <-> no AcroForm or no/empty Fields) *)
   d_acro   : bool;             (* catalog has /AcroForm *)
   d_perms  : bool;             (* catalog /Perms  (DocMDP, UR3) *)
-  d_perm   : bool;             (* catalog /Perm   (the key the code deletes) *)
+  d_perm   : bool;             (* catalog /Perm   (not a PDF key; deleted by the code before 31c53709) *)
   d_dss    : bool;
   d_legal  : bool;
   d_ext    : bool;             (* /Extensions *)
@@ -109,8 +110,8 @@ Definition sweep (pages : list page) (fields : list field) : list page :=
 
 (* ---- (xRefTable *XRefTable) RemoveAllSignatures() ---- *)
 Definition remove_all (d : doc) : doc :=
-  (* delete(d, "DSS"); delete(d, "Legal"); delete(d, "Perm"); delete(d, "Extensions") *)
-  let d0 := {| d_form := d_form d; d_acro := d_acro d; d_perms := d_perms d; d_perm := false;
+  (* delete(d, "DSS"); delete(d, "Legal"); delete(d, "Perms"); delete(d, "Extensions") *)
+  let d0 := {| d_form := d_form d; d_acro := d_acro d; d_perms := false; d_perm := d_perm d;
                d_dss := false; d_legal := false; d_ext := false;
                d_pages := d_pages d; d_others := d_others d |} in
   match d_form d with
@@ -118,7 +119,7 @@ Definition remove_all (d : doc) : doc :=
   | Some fm =>
       match fm_fields fm with
       | [] =>                                      (* no / empty Fields -> delete(d, "AcroForm") *)
-          {| d_form := d_form d; d_acro := false; d_perms := d_perms d; d_perm := false;
+          {| d_form := d_form d; d_acro := false; d_perms := false; d_perm := d_perm d;
              d_dss := false; d_legal := false; d_ext := false;
              d_pages := d_pages d; d_others := d_others d |}
       | fields =>
@@ -126,12 +127,12 @@ Definition remove_all (d : doc) : doc :=
           let pages' := sweep (d_pages d) fields in
           match arr with
           | [] =>                                  (* only Sig fields: delete(d, "AcroForm") *)
-              {| d_form := d_form d; d_acro := false; d_perms := d_perms d; d_perm := false;
+              {| d_form := d_form d; d_acro := false; d_perms := false; d_perm := d_perm d;
                  d_dss := false; d_legal := false; d_ext := false;
                  d_pages := pages'; d_others := d_others d |}
           | _ =>                                   (* Form["Fields"] = arr; delete(Form, "SigFlags") *)
               {| d_form := Some {| fm_fields := arr; fm_sigflags := false |};
-                 d_acro := d_acro d; d_perms := d_perms d; d_perm := false;
+                 d_acro := d_acro d; d_perms := false; d_perm := d_perm d;
                  d_dss := false; d_legal := false; d_ext := false;
                  d_pages := pages'; d_others := d_others d |}
           end
@@ -233,8 +234,7 @@ Definition widgets_reached (d : doc) : bool :=
      forallb (fun v => negb (mem v (sig_ids d)) || in_ops (all_ops (visible_fields d)) (fst pg) v)
              (alist (snd pg))) (d_pages d).
 Definition supported (d : doc) : bool :=
-  negb (d_perms d)
-  && d_acro d
+  d_acro d
   && forallb top_ok (visible_fields d)
   && negb (existsb (fun o : N * option ftype => osig (snd o) && on_some_page (d_pages d) (fst o)) (d_others d))
   && widgets_reached d.
@@ -283,5 +283,5 @@ Definition only_sig_probes_removed (d d' : doc) : Prop :=
                alist (snd pg') = filter (fun v => negb (rm v)) (alist (snd pg)) /\
                forall v, rm v = true -> removable d v)
           (d_pages d) (d_pages d') /\
-  d_others d' = d_others d /\ d_perms d' = d_perms d /\
+  d_others d' = d_others d /\ d_perms d' = false /\ d_perm d' = d_perm d /\
   visible_sigflags d' = false /\ d_dss d' = false /\ d_legal d' = false /\ d_ext d' = false.
